@@ -264,15 +264,9 @@ func init() {
 			if c.Tier == "thorough" {
 				mc.SeqFullDepth = 2
 			}
-			for _, i := range cfgs {
-				cfg := cmpConfigs[i]
-				d := cmpDepth(cfg, c.Tier) - 1
-				st := mc.DriveSeq(c, "bfs", i, len(c07Alphabet(cfg, cmpDepth(cfg, c.Tier))), d)
-				stats[fmt.Sprintf("%d:%s/%v/skipped=%v", i, cfg.engine, cfg.keys, cfg.skipped)] = st
-				total.States += st.States
-				total.Transitions += st.Transitions
-				total.Evals += st.Evals
-			}
+			// the schedule scenarios first (seconds), the history search after them
+			full := c.Deadline
+			c.Deadline = c.Start.Add(full.Sub(c.Start) / 3)
 			scheds := c07Scheds(c.Tier)
 			mc.DriveSchedules(c, func(i int, sc *mc.Scenario) mc.SchedPlan {
 				p := mc.SchedPlan{Class: "schedules/" + scheds[i].engine, Bounds: []int{0}, Shard: true}
@@ -288,6 +282,16 @@ func init() {
 				}
 				return p
 			})
+			c.Deadline = full
+			for _, i := range cfgs {
+				cfg := cmpConfigs[i]
+				d := cmpDepth(cfg, c.Tier) - 1
+				st := mc.DriveSeq(c, "bfs", i, len(c07Alphabet(cfg, cmpDepth(cfg, c.Tier))), d)
+				stats[fmt.Sprintf("%d:%s/%v/skipped=%v", i, cfg.engine, cfg.keys, cfg.skipped)] = st
+				total.States += st.States
+				total.Transitions += st.Transitions
+				total.Evals += st.Evals
+			}
 			c.Cov["states"] = total.States + c.Agg.States
 			c.Cov["histories_states"] = total.States
 			c.Cov["histories_transitions"] = total.Transitions
